@@ -69,6 +69,17 @@ func (c *Ctx) Violate(sig, what string, detail interface{}) {
 	c.res.Viol = append(c.res.Viol, Violation{Sig: sig, What: what, Detail: detail})
 }
 
+// Sigs returns the signatures of the violations recorded so far (oracle self-tests).
+func (c *Ctx) Sigs() []string {
+	c.mu.Lock()
+	defer c.mu.Unlock()
+	var res []string
+	for _, v := range c.res.Viol {
+		res = append(res, v.Sig)
+	}
+	return res
+}
+
 func (c *Ctx) Violated() bool {
 	c.mu.Lock()
 	defer c.mu.Unlock()
